@@ -74,6 +74,16 @@ pub struct MuxRun<W> {
     pub tracks_added: usize,
 }
 
+/// does the documented domain say add_track accepts this configuration?
+pub fn expect_accept(t: &MTrack) -> bool {
+    (t.preset || t.timescale != 0)
+        && match &t.kind {
+            MKind::Avc { sps, pps, .. } => sps.len() >= 4 && sps.len() <= 65535 && pps.len() <= 65535,
+            MKind::Aac { profile, freq_index, chan, .. } => aac_valid(*profile, *freq_index, *chan),
+            _ => true,
+        }
+}
+
 pub fn aac_valid(profile: u8, freq: u8, chan: u8) -> bool {
     use std::convert::TryFrom;
     mp4::AudioObjectType::try_from(profile).is_ok() && mp4::SampleFreqIndex::try_from(freq).is_ok() && mp4::ChannelConfig::try_from(chan).is_ok()
@@ -193,6 +203,56 @@ pub fn run_mux_vec(case: &MuxCase) -> (MuxRun<Cursor<Vec<u8>>>, Vec<u8>) {
     (r, bytes)
 }
 
+#[derive(Default, Debug)]
+pub struct CallsVerdict {
+    /// a call the documented domain says must be accepted returned Err: history outside the property
+    pub rejected_valid: bool,
+    /// add_track accepted a configuration expected to be rejected (track ids no longer line up)
+    pub accepted_invalid: bool,
+    pub had_rejected_track: bool,
+    pub had_rejected_sample: bool,
+    /// write_sample with an unknown track id returned Ok
+    pub accepted_bad_sample: bool,
+}
+
+pub fn judge_calls<W>(case: &MuxCase, run: &MuxRun<W>) -> CallsVerdict {
+    let mut v = CallsVerdict::default();
+    let (mut ti, mut oi) = (0usize, 0usize);
+    let configs: Vec<&MTrack> = case.tracks.iter().filter(|t| track_config(t).is_some()).collect();
+    for (name, out) in &run.calls {
+        match name.as_str() {
+            "add_track" => {
+                let expect = configs.get(ti).map(|t| expect_accept(t)).unwrap_or(true);
+                ti += 1;
+                match (out, expect) {
+                    (CallOutcome::Err(_), true) => v.rejected_valid = true,
+                    (CallOutcome::Ok, false) => v.accepted_invalid = true,
+                    (CallOutcome::Err(_), false) => v.had_rejected_track = true,
+                    _ => {}
+                }
+            }
+            "write_sample" => {
+                let op = &case.ops[oi.min(case.ops.len().saturating_sub(1))];
+                oi += 1;
+                let valid = op.track >= 1 && (op.track as usize) <= run.tracks_added;
+                match out {
+                    CallOutcome::Err(_) if valid => v.rejected_valid = true,
+                    CallOutcome::Err(_) => v.had_rejected_sample = true,
+                    CallOutcome::Ok if !valid => v.accepted_bad_sample = true,
+                    _ => {}
+                }
+            }
+            "write_sample-accepted-unknown-track" => v.accepted_bad_sample = true,
+            _ => {
+                if matches!(out, CallOutcome::Err(_)) {
+                    v.rejected_valid = true;
+                }
+            }
+        }
+    }
+    v
+}
+
 pub fn first_panic<W>(r: &MuxRun<W>) -> Option<Failure> {
     for (name, o) in &r.calls {
         if let CallOutcome::Panic(p) = o {
@@ -281,7 +341,10 @@ pub struct HistOpts {
 /// Assemble a history in the documented-valid domain (C01/C02/C14). Durations are adjusted by
 /// construction so that every track's duration in movie ticks stays below 2^62 (histories beyond
 /// that are not representable in any ISO file; C17 feeds them separately).
-pub fn assemble_history(major: [u8; 4], minor: u32, compat: Vec<[u8; 4]>, movie_ts: u32, tracks: Vec<MTrack>, raw: Vec<RawOp>, o: &HistOpts) -> MuxCase {
+pub fn assemble_history(major: [u8; 4], minor: u32, compat: Vec<[u8; 4]>, movie_ts: u32, all_tracks: Vec<MTrack>, raw: Vec<RawOp>, o: &HistOpts) -> MuxCase {
+    // track ids are handed out to the tracks add_track accepts, in order; configurations it must
+    // reject (zero timescale, SPS shorter than 4 bytes, oversized parameter sets) get no id
+    let tracks: Vec<MTrack> = all_tracks.iter().filter(|t| expect_accept(t)).cloned().collect();
     let n = tracks.len() as u32;
     let mut ops = Vec::new();
     let mut prev_size: Vec<u32> = vec![1; n as usize];
@@ -340,7 +403,16 @@ pub fn assemble_history(major: [u8; 4], minor: u32, compat: Vec<[u8; 4]>, movie_
         };
         ops.push(MOp { track: ti as u32 + 1, size, dur, cts, sync });
     }
-    MuxCase { major, minor, compat, timescale: movie_ts, tracks, ops }
+    MuxCase { major, minor, compat, timescale: movie_ts, tracks: all_tracks, ops }
+}
+
+/// a configuration add_track must reject
+pub fn invalid_track() -> impl Strategy<Value = MTrack> {
+    prop_oneof![
+        (valid_kind(), lang3()).prop_map(|(kind, language)| MTrack { kind, timescale: 0, language, preset: false }),
+        (prop::collection::vec(any::<u8>(), 0..4), lang3()).prop_map(|(sps, language)| MTrack { kind: MKind::Avc { width: 4, height: 4, sps, pps: vec![1] }, timescale: 1000, language, preset: false }),
+        Just(MTrack { kind: MKind::Avc { width: 4, height: 4, sps: vec![1, 2, 3, 4], pps: vec![7; 65536] }, timescale: 1000, language: "und".into(), preset: false }),
+    ]
 }
 
 pub fn valid_track() -> impl Strategy<Value = MTrack> {
@@ -355,7 +427,7 @@ pub fn mux_history(max_tracks: usize, max_ops: usize, bad_weight: f64) -> impl S
 pub fn mux_history_bits(max_tracks: usize, max_ops: usize, bad_weight: f64, tick_bits: u32) -> impl Strategy<Value = MuxCase> {
     (
         (crate::gen::cc_strategy(), any::<u32>(), prop::collection::vec(crate::gen::cc_strategy(), 0..4), crate::gen::timescale_strategy()),
-        prop::collection::vec(valid_track(), 1..=max_tracks),
+        prop::collection::vec(if bad_weight > 0.0 { prop_oneof![9 => valid_track(), 1 => invalid_track()].boxed() } else { valid_track().boxed() }, 1..=max_tracks),
         prop::collection::vec(raw_op(bad_weight), 0..=max_ops),
         (prop_oneof![Just(0u16), any::<u16>(), Just(u16::MAX)], 0u8..5, prop_oneof![4 => Just(0u8), 1 => Just(1u8), 1 => Just(2u8)]),
     )
